@@ -14,7 +14,9 @@ import (
 	"bytes"
 	"encoding/base64"
 	"fmt"
+	"io"
 	"math"
+	"os"
 	"sort"
 	"strings"
 
@@ -29,12 +31,13 @@ func Spec() *run.Spec {
 	return &run.Spec{
 		ID: "C04", Level: "exploration",
 		Rule: "case = one generated well-formed mesh (point cloud or triangle mesh; index pattern unwelded/permutation/welded/unreferenced/repeated+degenerate/random/no faces; " +
-			"0..40 vertices, 'large' phase 2 000..20 000; any subset of Position/Normal/Color(RGB|RGBA)/FDC/Opacity/Scale/Rotation/TexCoord + user-named v1..v4 attributes; value classes unit/int/f32/f64/large/tiny/wide) " +
+			"0..40 vertices (10 % up to 300), 'large' phase: directed sizes 65 535/65 536/65 537/70 001/131 073 (thorough also 200 003/262 145/300 007) then random 2 000..20 000 (thorough ..60 000); 2 % of the roundtrip cases are the directed triangle mesh whose only attribute is TexCoord (vertex element without properties); any subset of Position/Normal/Color(RGB|RGBA)/FDC/Opacity/Scale/Rotation/TexCoord + user-named v1..v4 attributes; value classes unit/int/f32/f64/large/tiny/wide) " +
 			"× one writer configuration (ply.Write, or a custom MeshWriter: per attribute an explicit property writer — value or pointer, canonical/alias/own property names, type Float/Double/UChar/Int as the values allow — or none; writers for absent attributes; WriteUnspecifiedProperties on/off), " +
 			"written in all three encodings. Non-trivial: triangle mesh with a vertex shared by ≥2 corners and ≥2 attributes, or cloud with ≥3 attributes. Distinct = distinct (topology, size buckets, index pattern, attribute/class mix, configuration) descriptors.",
 		Assumptions: []string{
 			"finite values; 8-bit storage only for attributes with values in [0,1]; Int storage only for integer-valued attributes inside int32 (DESIGN: out of reach otherwise)",
-			"a configuration always writes at least one vertex property when the mesh has vertices (an element with records but no properties is outside the statement)",
+			"a configuration always writes at least one vertex property when the mesh has vertices, except for the triangle mesh whose only attribute is TexCoord (its data lives in the face list; the vertex element then has records without properties)",
+			"every file is handed to ply.ReadMesh / ply.ReadHeader through a reader kind drawn per file (bytes.Reader, bytes.Buffer, bufio.Reader, plain io.Reader wrapper, iotest One-byte/Half/DataErr readers, io.LimitReader, *os.File, io.Pipe): the decoded mesh must not depend on it, and ReadHeader must leave exactly the body unread (its doc comment: reading stops at end_header)",
 			"point clouds whose index list is not 0..n-1 cannot be expressed in PLY (only the vertex table is stored): for those the comparison is per vertex and the primitive count is not compared",
 			"ASCII decodes float and double columns through a 32-bit parse (DESIGN §0): ASCII is compared at ±1 float32 ulp, binary double exactly, binary float at float32",
 			"uchar-typed columns that the reader loads through its scalar path come back raw from ASCII: reported as the known finding ascii-uchar-scalar-raw, exercised in its own phase",
@@ -43,6 +46,10 @@ func Spec() *run.Spec {
 		MinObserved: map[string]int64{
 			"encodings": 3, "files_decoded_independently": 1000, "corners_compared": 5000,
 			"welded_texcoord_binary_files": 20, "property_types": 4, "config_kinds": 2,
+			"readback_source_kinds": 10, "readheader_source_kinds": 10,
+			"ascii_files_over_65536_vertices_read_back": 3, "binary_files_over_65536_vertices_read_back": 6,
+			"texcoord_only_triangle_meshes": 30, "ascii_files_with_empty_vertex_records_read_back": 15,
+			"texcoord_only_mesh_variants": 6,
 		},
 		Phases: []run.Phase{
 			{Name: "roundtrip", Cases: func(t string) int {
@@ -50,7 +57,10 @@ func Spec() *run.Spec {
 					return 120000
 				}
 				return 4000
-			}, Run: func(c *run.Ctx) run.Result { return runCase(c, genOpts{}) }, Batch: 100, CPUBudgetS: 20},
+			}, Run: func(c *run.Ctx) run.Result {
+				// one case in fifty is the directed texcoord-only triangle mesh
+				return runCase(c, genOpts{TexOnly: c.Case%50 == 7})
+			}, Batch: 100, CPUBudgetS: 20},
 			{Name: "uchar-scalar", Cases: func(t string) int {
 				if t == "thorough" {
 					return 4000
@@ -61,8 +71,22 @@ func Spec() *run.Spec {
 				if t == "thorough" {
 					return 96
 				}
-				return 16
-			}, Run: func(c *run.Ctx) run.Result { return runCase(c, genOpts{Large: true, MinN: 2000, MaxN: 20000}) }, Batch: 1, CPUBudgetS: 120},
+				return 13
+			}, Run: func(c *run.Ctx) run.Result {
+				o := genOpts{Large: true, MinN: 2000, MaxN: 20000}
+				// directed sizes around 2^16 and 2^17 (allocation / growth boundaries of readers), then random ones
+				sizes := []int{65535, 65536, 65537, 70001, 131073}
+				directed := len(sizes)
+				if c.Tier == "thorough" {
+					sizes = append(sizes, 200003, 262145, 300007)
+					directed = 4 * len(sizes)
+					o.MaxN = 60000
+				}
+				if c.Case < directed {
+					o.ForceN = sizes[c.Case%len(sizes)]
+				}
+				return runCase(c, o)
+			}, Batch: 1, CPUBudgetS: 300},
 		},
 	}
 }
@@ -92,6 +116,14 @@ type caseState struct {
 	cols  []column
 	lands []landed
 	input string
+	dir   string
+}
+
+func (s *caseState) scratch() string {
+	if s.dir == "" {
+		s.dir = s.c.ScratchDir()
+	}
+	return s.dir
 }
 
 func (s *caseState) witness(extra map[string]any) map[string]any {
@@ -215,6 +247,18 @@ func runCase(c *run.Ctx, o genOpts) run.Result {
 		}
 	}
 	knownRaw := map[string]bool{}
+	srcRng := c.SubRng(0x50c)
+	if c.Replay {
+		defer func() {
+			if s.dir != "" {
+				os.RemoveAll(s.dir)
+			}
+		}()
+	}
+	if onlyTexCoordTriMesh(mc) && mc.N > 0 {
+		res.Count("texcoord_only_triangle_meshes", 1)
+		res.SetAdd("texcoord_only_mesh_variants", fmt.Sprintf("%s/cols=%d/%s", mc.Pattern, len(s.cols), cfg.Kind))
+	}
 	for _, ei := range []int{1, 2, 0} {
 		enc := encodings[ei]
 		data := s.write(mesh, enc)
@@ -236,8 +280,18 @@ func runCase(c *run.Ctx, o genOpts) run.Result {
 			}
 		}
 		hdrs[ei] = s.checkFile(data, enc)
-		s.checkReadHeader(data, enc, hdrs[ei])
-		snaps[ei] = s.readBack(data, enc, binaryDiv, knownRaw)
+		s.checkReadHeader(data, enc, hdrs[ei], plyfile.PickSource(srcRng))
+		snaps[ei] = s.readBack(data, enc, binaryDiv, knownRaw, plyfile.PickSource(srcRng))
+		if snaps[ei] != nil && mc.N > 65536 {
+			if ei == 0 {
+				res.Count("ascii_files_over_65536_vertices_read_back", 1)
+			} else {
+				res.Count("binary_files_over_65536_vertices_read_back", 1)
+			}
+		}
+		if snaps[ei] != nil && ei == 0 && mc.N > 0 && len(s.cols) == 0 {
+			res.Count("ascii_files_with_empty_vertex_records_read_back", 1)
+		}
 	}
 	s.crossHeaders(hdrs)
 	s.crossEncodings(snaps, knownRaw)
@@ -527,14 +581,40 @@ func b2i(b bool) int {
 }
 
 // polyform's own header parser on polyform's own header (observe point ply.ReadHeader)
-func (s *caseState) checkReadHeader(data []byte, enc encoding, mine *plyfile.Header) {
+func (s *caseState) checkReadHeader(data []byte, enc encoding, mine *plyfile.Header, kind string) {
 	if mine == nil {
 		return
 	}
 	site := "ply.ReadHeader " + enc.name
 	var h ply.Header
 	var err error
-	p := run.Try(func() { h, err = ply.ReadHeader(bytes.NewReader(data)) })
+	src, done, serr := plyfile.Source(kind, data, s.scratch(), fmt.Sprintf("%s-%d-h", s.c.Phase, s.c.Case))
+	if serr != nil {
+		s.res.Inconclusive = "harness: cannot open source " + kind + ": " + serr.Error()
+		return
+	}
+	var rest []byte
+	var rerr error
+	p := run.Try(func() {
+		h, err = ply.ReadHeader(src)
+		if err == nil {
+			rest, rerr = io.ReadAll(src)
+		}
+	})
+	done()
+	s.res.SetAdd("readheader_source_kinds", kind)
+	if p == nil && err == nil {
+		// "Reading from the reader passed in stops once we recieve the end_header token":
+		// what is left in the caller's reader is exactly the body
+		body := data[mine.BodyOffset:]
+		if rerr != nil || !bytes.Equal(rest, body) {
+			s.res.Violate("header-overread", "ply.ReadHeader on "+readerClass(kind), s.input+" src="+kind,
+				fmt.Sprintf("after ReadHeader the caller's %s holds %d bytes (err %v), the body after end_header has %d: ReadHeader consumed bytes past end_header", kind, len(rest), rerr, len(body)),
+				s.witness(map[string]any{"file": fileWitness(data)}))
+			return
+		}
+		s.res.Count("readheader_left_exactly_the_body", 1)
+	}
 	if p != nil {
 		s.res.Violate("read-panic", site+" ("+p.Site+")", s.input, "ReadHeader panicked on a file written by the library: "+p.Value, s.witness(map[string]any{"file": fileWitness(data)}))
 		return
@@ -608,15 +688,30 @@ func readOK(v, got float64, typ, encName string) bool {
 	return false
 }
 
-func (s *caseState) readBack(data []byte, enc encoding, binaryDiv, knownRaw map[string]bool) *ref.Snapshot {
+func (s *caseState) readBack(data []byte, enc encoding, binaryDiv, knownRaw map[string]bool, kind string) *ref.Snapshot {
 	mc := s.mc
 	site := "ply.ReadMesh after write " + enc.name
-	wit := func() map[string]any { return s.witness(map[string]any{"file": fileWitness(data)}) }
+	wit := func() map[string]any {
+		return s.witness(map[string]any{"file": fileWitness(data), "source": kind})
+	}
 	s.c.SaveInput(data)
-	s.c.Note("read " + enc.name)
+	s.c.Note("read " + enc.name + " from " + kind)
 	var back *modeling.Mesh
 	var err error
-	p := run.Try(func() { back, err = ply.ReadMesh(bytes.NewReader(data)) })
+	src, done, serr := plyfile.Source(kind, data, s.scratch(), fmt.Sprintf("%s-%d-m", s.c.Phase, s.c.Case))
+	if serr != nil {
+		s.res.Inconclusive = "harness: cannot open source " + kind + ": " + serr.Error()
+		return nil
+	}
+	p := run.Try(func() { back, err = ply.ReadMesh(src) })
+	done()
+	s.res.SetAdd("readback_source_kinds", kind)
+	if p != nil || err != nil {
+		site += " (" + readerClass(kind) + ")"
+	}
+	saved := s.input
+	s.input += " src=" + kind
+	defer func() { s.input = saved }()
 	if p != nil {
 		class := "read-panic"
 		if p.Runtime {
@@ -925,4 +1020,13 @@ func firstDiff(a, b []float64, which int) float64 {
 		}
 	}
 	return math.NaN()
+}
+
+// readerClass groups the source kinds by what a reader implementation can see of them.
+func readerClass(kind string) string {
+	switch kind {
+	case "*bytes.Reader", "*bytes.Buffer", "*bufio.Reader":
+		return "source implementing io.ByteReader"
+	}
+	return "plain io.Reader source"
 }
